@@ -66,9 +66,9 @@ CHECKS.update({
     "C14": dict(
         engine="E-XH",
         ref="DESIGN.md section 5 / C14",
-        technique="symbolic execution (CrossHair/z3) of Watcher.record_change over event sequences and of Workflow.relevant_paths_under over pools of patterns/directories",
-        text=_MECH + "decided: folding of any sequence of <= 3 (4 thorough) UPDATED/DELETED/DELETED_PARENT events over two paths and their directory yields disjoint updated/deleted sets reflecting the last relevant event per path; a removed directory reports exactly the recorded glob matches beneath it.",
-        note="Relevance is an arbitrary per-path constant; inotify delivery and watch installation are outside.",
+        technique="symbolic execution (CrossHair/z3) of Watcher.record_change over event sequences, of Workflow.relevant_paths_under over pools of patterns/directories, and of AsyncInotifyWrapper.dir_loop/change_loop over a symbolic file-system depth and symbolic watch bookkeeping",
+        text=_MECH + "decided: folding of any sequence of <= 3 (4 thorough) UPDATED/DELETED/DELETED_PARENT events over two paths and their directory yields disjoint updated/deleted sets reflecting the last relevant event per path; a removed directory reports exactly the recorded glob matches beneath it; for a requested directory of <= 3 (4 thorough) levels of which any number exists and any earlier watch bookkeeping, dir_loop records every missing level and watches the nearest existing ancestor, and when the levels appear change_loop leaves the directory watched and reports the file in it.",
+        note="Relevance is an arbitrary per-path constant; Inotify, the path.Path file-system calls and iter_until_stopped are stubs; kernel delivery of inotify events, directory moves and absolute/'..' paths are outside.",
     ),
     "C19": dict(
         engine="E-XH",
